@@ -42,11 +42,30 @@ from typing import Iterable
 
 import numpy as np
 import sympy as sym
+from sympy.printing.str import StrPrinter
 
 
 def _is_ptype(v):
     """Checks whether a string is of the form `p0`, `p1`, etc."""
     return len(v) > 1 and v[0] == "p" and v[1:].isdigit()
+
+
+class _BlackbirdExprPrinter(StrPrinter):
+    """Prints SymPy expressions in Blackbird syntax.
+
+    In Blackbird a sign binds tighter than ``**``, so a negated product that
+    contains a power is bracketed (``-(a**2)`` instead of ``-a**2``), and the
+    imaginary unit is written ``1j``.
+    """
+
+    def _print_Mul(self, expr):
+        text = super()._print_Mul(expr)
+        if text.startswith("-") and "**" in text:
+            return "-({})".format(text[1:])
+        return text
+
+    def _print_ImaginaryUnit(self, expr):
+        return "1j"
 
 
 def _value_to_blackbird(v, tdm=False):
@@ -70,11 +89,16 @@ def _value_to_blackbird(v, tdm=False):
 
     if isinstance(v, sym.Expr):
         # wrap every free parameter in braces
+        text = _BlackbirdExprPrinter().doprint(v)
         names = sorted((str(p) for p in v.free_symbols), key=len, reverse=True)
         if not names:
-            return str(v)
+            return text
         pattern = r"\b({})\b".format("|".join(re.escape(n) for n in names))
-        return re.sub(pattern, r"{\1}", str(v))
+        return re.sub(pattern, r"{\1}", text)
+
+    if isinstance(getattr(v, "expr", None), sym.Expr):
+        # a transform of measured registers (no free parameters to wrap)
+        return _BlackbirdExprPrinter().doprint(v.expr)
 
     if isinstance(v, np.generic):
         v = v.item()
